@@ -298,7 +298,9 @@ class ResolveAnchorIds(Transform):
         }
 
         for refnode in findall(self.document)(nodes.reference):
-            if not refnode.get("id_link"):
+            if not refnode.get("id_link") or "refuri" not in refnode:
+                # (no refuri: already resolved, when this transform ran on the
+                # sub-document of an rST ``include`` with the ``parser`` option)
                 continue
 
             target = refnode["refuri"][1:]
